@@ -59,8 +59,7 @@ META = {
                     'python clean actions come as def / **kwargs / *args / defaulted parameter / functools.partial / callable '
                     'object, with and without a parameter named `dryrun`',
                     'targets may be symbolic links (to files inside / outside the tree, to directories that cannot become '
-                    'empty, broken); a target link to an EMPTY directory is not generated: the code calls os.rmdir on the link '
-                    'and dies with NotADirectoryError (model: event `crash`; theorem no_links_no_crash); no target path runs '
+                    'empty, to empty directories and to directories that the same clean empties, broken); no target path runs '
                     'through a linked directory; clean actions never touch a link',
                     'task names may contain the fnmatch metacharacters [ ] ? ! (only `*` makes an argument a pattern)',
                     'targets are normalised relative paths without trailing slash; two tasks never share a target '
@@ -71,26 +70,6 @@ META = {
                 'fnmatch: modelled for * ? and literals'],
     'models': ['M7', 'M8'],
 }
-
-
-def sig_symlink_to_empty_dir(w):
-    """the implementation died with NotADirectoryError and the case has a `clean: True` target that is a symbolic link
-    whose destination is a directory of the pre-state (findings/pending/C14-symlink-to-empty-dir.md)"""
-    impl = w.get('impl') or {}
-    case = w.get('case') or {}
-    if 'NotADirectoryError' not in str(impl.get('outcome')):
-        return False
-    dirs0 = set(impl.get('dirs0') or [])
-    link_dest = {l[0]: l[1] for l in (impl.get('links0') or [])}
-    for t in case.get('tasks', []):
-        if t.get('kind') == 'targets':
-            for p in t.get('targets', []):
-                if p in link_dest and link_dest[p] in dirs0:
-                    return True
-    return False
-
-
-SIGNATURES = {'symlink-to-empty-dir': sig_symlink_to_empty_dir}
 
 
 # ----------------------------------------------------------------------------------------------
@@ -226,9 +205,8 @@ def gen_targets(rng, tasks):
     for i, t in enumerate(tasks):
         if t['kind'] == 'targets' and rng.random() < 0.3:
             for _ in range(rng.randint(1, 2)):
-                kind = rng.choice(['out-file', 'out-file', 'in-file', 'out-dir', 'in-dir', 'broken'])
-                if rng.random() < 0.06:
-                    kind = 'empty-dir'      # open known finding symlink-to-empty-dir: os.rmdir on the link kills `clean`
+                kind = rng.choice(['out-file', 'out-file', 'in-file', 'out-dir', 'in-dir', 'broken', 'empty-dir',
+                                   'emptied-dir'])
                 link = rng.choice(['ln%d' % i, 'o%d/lnk' % i, 'lnk%d.d/l' % i])
                 if any(l[0] == link for l in links) or link in state:
                     continue
@@ -247,8 +225,16 @@ def gen_targets(rng, tasks):
                     dest = 'keepdir%d' % i
                     state[dest + '/keep'] = 'file'
                 elif kind == 'empty-dir':
+                    # a link to an empty directory: the link is removed (`removing dir`), the directory stays (F-C14 a5ed062)
                     dest = 'emptydir%d' % i
                     state[dest] = 'dir'
+                elif kind == 'emptied-dir':
+                    # ... to a directory whose only entry is a target file of the same task: empty or not when the link's
+                    # turn comes, depending on the (reverse code-point) order of the two paths
+                    dest = rng.choice(['emptied%d', 'zz-emptied%d']) % i
+                    state[dest + '/t'] = 'file'
+                    if dest + '/t' not in t['targets']:
+                        t['targets'].append(dest + '/t')
                 else:
                     dest = 'nowhere%d' % i
                 t['targets'].append(link)
@@ -572,7 +558,8 @@ def process_batch(batch):
         if any(t['setup'] for t in tasks):
             st.count('has-setup-edge')
         for l in case.get('links', []):
-            st.count('symlink-target:%s' % ('to-empty-dir' if 'emptydir' in l[1] else 'outside' if '../store' in l[1]
+            st.count('symlink-target:%s' % ('to-empty-dir' if 'emptydir' in l[1] else 'to-emptied-dir' if 'emptied' in l[1]
+                                            else 'outside' if '../store' in l[1]
                                             or l[1].startswith('../../') else 'inside/broken'))
         for t in tasks:
             acts = t.get('actions', []) if t['kind'] == 'actions' else []
@@ -603,11 +590,7 @@ def process_batch(batch):
             if any(v >= 2 for v in cnt.values()):
                 st.count('shared-dependency-cleaned')
         if failed:
-            known = sig_symlink_to_empty_dir({'case': case, 'impl': obs})
-            if known:
-                st.count('known-finding-shape:symlink-to-empty-dir')
-            # an instance of an open known finding is reported as found (the corpus has the minimal form)
-            small = shrink(case) if (len(st.violations) < 2 and not known) else case
+            small = shrink(case) if len(st.violations) < 2 else case
             c2, o2, a2, d2, f2 = evaluate([small])[0]
             if not f2:
                 c2, o2, a2, d2, f2 = case, obs, ans, diffs, failed
